@@ -266,6 +266,66 @@ def liveness_stage(R, tier):
         raise vlib.Machinery('TLC error (liveness):\n' + res['out'][-2500:])
 
 
+SHIPPING = [({'rule': 'wigm'}, None), ({'rule': 'meek'}, None), ({'rule': 'warren'}, None), ({'rule': 'meek-prf'}, None), ({'rule': 'qpq'}, None),
+            ({'rule': 'wigm', 'arithmetic': 'fixed'}, None), ({'rule': 'meek', 'arithmetic': 'fixed'}, None)]
+
+
+def shipping_stage(R, prop, tier, rng, known):
+    """
+    The shipping precisions (default guarded 18+9, fixed 9, meek-prf 9 places, qpq 9+9) exceed 32 bits.  C02/C04/C08 are judged on
+    limb-encoded traces by spec/BigProps.tla; C01/C09/C18 on sign-only shadows by the ordinary Props.tla clauses.
+    """
+    if prop not in ('C01', 'C02', 'C04', 'C08', 'C09', 'C18'):
+        return
+    big = prop in ('C02', 'C04', 'C08')
+    traces, meta = [], {}
+    n = 14 if tier == 'quick' else 250
+    tid = 0
+    for i in range(n):
+        pr = make_profile(rng, pick_shape(rng, MIX[prop]), prop)
+        if pr['nc'] > 6 or len(pr['lines']) > 10:
+            pr = gen.randprofile(rng, maxc=5, maxlines=7, wd=True)
+        blt = drive.mkblt(**pr)
+        for opts, lp in SHIPPING:
+            if prop == 'C08' and drive.fam(opts['rule']) != 'meek':
+                continue
+            T = drive.run_count(blt, opts, want_ballots=(opts['rule'] == 'qpq'), budget=20)
+            R.cov['evaluations'] += 1
+            if T['outcome'] not in ('ok', 'exc') or 'nc' not in T:
+                continue
+            N = drive.to_big(T) if big else drive.to_shadow(T)
+            if N is None:
+                continue
+            tid += 1
+            N['id'] = tid
+            N['fam'] = drive.fam(T['rule'])
+            traces.append(N)
+            meta[tid] = (blt, opts, T)
+    if not traces:
+        return
+    verd, res = vlib.judge(traces, [prop], workers=16, module='TraceBigProps' if big else 'TraceProps')
+    R.add_tlc(res)
+    R.cov['traces_validated_against_impl'] += len(traces)
+    nf = 0
+    for i, fails in verd.items():
+        blt, opts, T = meta[i]
+        real = []
+        for (p, cl, k) in fails:
+            if cl.startswith('KNOWN_') and cl[6:] in known:
+                R.known_finding(cl[6:], known[cl[6:]]['text'])
+                continue
+            if p == 'C01' and cl == 'outcome' and 'F2' in known and f2_match(T):
+                continue
+            real.append((p, cl, k))
+        if real:
+            nf += 1
+            p, cl, k = real[0]
+            a = T['acts'][k - 1] if 0 < k <= len(T['acts']) else {}
+            R.violation('%s clause %s at action %d (%s) rule=%s at its shipping precision, opts=%s' % (p, cl, k, a.get('msg', T.get('exc', '')), T['rule'], opts),
+                        dict(blt=blt, options=opts, clause=cl, action_index=k, all_failed_clauses=real))
+    R.stage('shipping-precision traces (%s)' % ('limb-encoded, BigProps.tla' if big else 'sign shadows, Props.tla'), traces=len(traces), failing=nf)
+
+
 def check_counts(prop, tier):
     R = vlib.Result(prop, tier)
     rng = random.Random(vlib.seed() * 1000003 + int(prop[1:]))
@@ -380,6 +440,7 @@ def check_counts(prop, tier):
                 meta[tid] = (blt, opts, None, T)
                 byrule[rule + ':rational-eq'] += 1
     flush()
+    shipping_stage(R, prop, tier, rng, known)
     if prop == 'C18':
         render_stage(R, tier)
     if prop == 'C07':
